@@ -383,7 +383,7 @@ def valid_case(case):
     """is this a well-formed case (the shrinker also produces garbage): the tree has the node
     shapes of gen_i18n and its source parses as a template"""
     import re
-    expr_ok = re.compile(r"^(s[123]|f[12]|n[12]|l1|it|_\('\w+'\)|ngettext\('\w+', '\w+', n[12]\))$")
+    expr_ok = re.compile(r"^(s[123]|f[12]|n[12]|l1|it|_\('\w+'\)|ngettext\('\w+', '\w+', (n[12]|[12]|len\(_\('\w+'\)\))\))$")
 
     def ok_parts(ps):
         return isinstance(ps, list) and all(isinstance(p, list) and len(p) == 2 and p[0] in ('t', 'x')
